@@ -114,6 +114,12 @@ class DictDecoder:
         Returns:
             An instance of the class type representing the parsed content.
         """
+        if not isinstance(data, dict):
+            raise ParserError(
+                f"Unable to bind `{type(data).__name__}` value "
+                f"to {clazz.__qualname__}, expected object"
+            )
+
         if set(data.keys()) == self.context.class_type.derived_keys:
             return self.bind_derived_dataclass(data, clazz)
 
@@ -265,6 +271,12 @@ class DictDecoder:
         """
         # xs:anyAttributes get it out of the way, it's the mapping exception!
         if var.is_attributes:
+            if not isinstance(value, dict):
+                raise ParserError(
+                    f"Failed to bind '{value}' "
+                    f"to {meta.clazz.__qualname__}.{var.name} field, expected object"
+                )
+
             return dict(value)
 
         # Repeating element, recursively bind the values
@@ -320,6 +332,12 @@ class DictDecoder:
             # field can support any object return the value as it is
             return value
 
+        if collections.is_array(value) and any(val is None for val in value):
+            raise ParserError(
+                f"Failed to bind '{value}' "
+                f"to {meta.clazz.__qualname__}.{var.name} field"
+            )
+
         value = converter.serialize(value)
 
         # Convert value according to the field types
@@ -352,7 +370,11 @@ class DictDecoder:
             # xs:anyType element, check all meta classes
             return self.bind_best_dataclass(data, meta.element_types)
 
-        assert var.clazz is not None
+        if var.clazz is None:
+            raise ParserError(
+                f"Failed to bind object with properties({list(data.keys())}) "
+                f"to {meta.clazz.__qualname__}.{var.name} field"
+            )
 
         subclasses = set(self.context.get_subclasses(var.clazz))
         if subclasses:
